@@ -504,6 +504,8 @@ def _const_str(e: ast.AST, mod=None) -> Optional[str]:
 def _class_by_name_lookup(prog: Program, f: FuncInfo, e: ast.AST) -> Optional[ClassInfo]:
     """`getattr(importlib.import_module(<literal module name>[, package]), <literal class name>)` is that class (lazy imports of
     optional back ends written as a table of names)"""
+    if isinstance(e, ast.Attribute) and isinstance(e.value, ast.Call):
+        e = ast.Call(func=ast.Name(id="getattr", ctx=ast.Load()), args=[e.value, ast.Constant(value=e.attr)], keywords=[])     # `import_module(..).Name`
     if not (isinstance(e, ast.Call) and dotted(e.func) == "getattr" and len(e.args) == 2):
         return None
     mod_e, cls_name = e.args[0], _const_str(e.args[1], f.module)
@@ -539,7 +541,7 @@ def dispatch(prog: Program, rep) -> None:
             local_var = isinstance(v.func, ast.Name) and any(isinstance(n_, ast.Name) and n_.id == v.func.id and isinstance(n_.ctx, ast.Store) for n_ in own_nodes(f.node))
             if any(isinstance(t, ClassInfo) for t in tgt) and not local_var:
                 sites.append((r, dotted(v.func) or ""))
-            elif isinstance(v.func, ast.Name) and _class_by_name_lookup(prog, f, ff.resolved(r, v.func)) is not None:
+            elif isinstance(v.func, (ast.Name, ast.Call, ast.Attribute)) and _class_by_name_lookup(prog, f, ff.resolved(r, v.func)) is not None:
                 # the class looked up by module and class NAME (importlib + getattr on literals): that class
                 sites.append((r, _class_by_name_lookup(prog, f, ff.resolved(r, v.func)).name))
             elif isinstance(v.func, ast.Name) and isinstance(ff.resolved(r, v.func), (ast.Name, ast.Attribute)) \
